@@ -9,7 +9,7 @@ from framework import P, hexf, hexl
 PID = 'C05'
 LEVEL = 'proof'
 LEAN_TARGETS = ['Swiftness.Props.C05', 'Swiftness.Prover.MerkleProver']
-BUILDS = {'quick': [('k160', 'stone5'), ('b248', 'stone5')],
+BUILDS = {'quick': [('k160', 'stone5'), ('k248', 'stone5'), ('b160', 'stone5'), ('b248', 'stone5')],   # the property names all four hash variants: all four in every tier
           'thorough': [('k160', 'stone5'), ('k248', 'stone5'), ('b160', 'stone5'), ('b248', 'stone5')]}
 RULE = ('honest tables from the Lean spec builder: n_columns in {1,2,3,4,7,8,16} (+0 and 2^32 as malformed), heights 0..5 (quick) / 0..8, '
         'n_verifier_friendly around height+1 (the row-hash boundary) and 0/huge, query sets single/adjacent/all/sparse; corruptions: every '
@@ -84,6 +84,13 @@ def cases(rng, tier, feats, drv_ok):
             j = rng.below(len(vals))
             add(f'cell+2^{e}', 'reject', v=vals[:j] + [(vals[j] + (1 << e)) % P] + vals[j + 1:])
     # malformed column counts: no panic, model agreement
+    # (column counts whose product with the number of queries passes a word boundary: 2^31 x 2, 2^62 x 4, 2^63 x 2, ... with an EMPTY value
+    # list, which is what a wrapped product would equal)
+    for nc, nq in [(1 << 31, 2), (1 << 32, 1), (1 << 62, 4), (1 << 63, 2), ((1 << 64) - 1, 2), (1 << 64, 1), ((1 << 64) // 3 + 1, 3)]:
+        qs = ','.join(str(i) for i in range(nq))
+        for vals in ([], [rng.felt()]):
+            res.append({'line': f'tdecommit {hexf(rng.felt())} {hexf(nc)} 2 3 {qs} {hexl(vals)} {hexl([rng.felt()])}',
+                        'kind': 'malformed-ncolumns-wrap', 'expect': 'any', 'h': 2, 'nc': 0, 'shape': 'adv'})
     for nc in [0, 1 << 32, (1 << 32) - 1, P - 1]:
         res.append({'line': f'tdecommit {hexf(rng.felt())} {hexf(nc)} 2 3 0,1 {hexl([rng.felt() for _ in range(rng.below(4))])} {hexl([rng.felt()])}',
                     'kind': 'malformed-ncolumns', 'expect': 'any', 'h': 2, 'nc': 0, 'shape': 'adv'})
